@@ -64,6 +64,21 @@ Proof.
   - rewrite (deny_by_ip_no_rules _ _ Ha Ed) in D. discriminate.
 Qed.
 
+(* the decision depends on an address only through its canonical (unmapped) form *)
+Lemma existsb_ext_eq {A} (f g : A -> bool) l : (forall x, f x = g x) -> existsb f l = existsb g l.
+Proof. intros H. induction l as [|x l IH]; [reflexivity|]. cbn. now rewrite H, IH. Qed.
+
+Lemma contains_canon n ip ip' : canon ip = canon ip' -> contains n ip = contains n ip'.
+Proof. intros H. unfold contains. now rewrite H. Qed.
+
+Lemma deny_by_ip_canon r ip ip' : canon ip = canon ip' -> deny_by_ip r (Some ip) = deny_by_ip r (Some ip').
+Proof.
+  intros H. unfold deny_by_ip. destruct (rules_empty r); [reflexivity|].
+  assert (E : forall l, existsb (fun b => contains b ip) l = existsb (fun b => contains b ip') l)
+    by (intros l; apply existsb_ext_eq; intros b; now apply contains_canon).
+  destruct (r_allow r) as [l|]; [now rewrite E|]. destruct (r_deny r) as [l|]; [apply E | reflexivity].
+Qed.
+
 (* ================= AccessDeniedHTTP ================= *)
 Lemma split_byte_nonempty s sep : split_byte s sep <> [].
 Proof.
@@ -91,6 +106,18 @@ Proof.
   - change (join (w :: w2 :: rest') [44]) with (w ++ 44 :: join (w2 :: rest') [44]).
     rewrite split_byte_app_sep. apply in_or_app.
     destruct Hv as [->|Hv]; [now left | right; now apply IH].
+Qed.
+
+Lemma in_split_join_inv xff x :
+  xff <> [] -> In x (split_byte (join xff [44]) 44) -> exists v, In v xff /\ In x (split_byte v 44).
+Proof.
+  induction xff as [|w rest IH]; [congruence|]. intros _ Hx.
+  destruct rest as [|w2 rest'].
+  - exists w. split; [now left | exact Hx].
+  - change (join (w :: w2 :: rest') [44]) with (w ++ 44 :: join (w2 :: rest') [44]) in Hx.
+    rewrite split_byte_app_sep in Hx. apply in_app_or in Hx as [Hx|Hx].
+    + exists w. split; [now left | exact Hx].
+    + destruct IH as (v & Hv & Hxv); [discriminate | exact Hx |]. exists v. split; [now right | exact Hxv].
 Qed.
 
 Lemma strip_zone_nil : strip_zone [] = [].
@@ -207,20 +234,56 @@ Section Http.
     forall s a, In s (request_strings host xff) -> addr_of s = Some a -> deny_by_ip r (Some a) = false.
 
   (* A non-denial means that every address of the request is admitted, for any number of
-     header lines and with zones.  The hypothesis left is that the strings of the request
-     mean, as addresses, what net.ParseIP reads once the zone is cut (true of net/netip:
-     tested on every case by the correspondence check). *)
+     header lines and with zones.  The hypothesis left: whatever a string of the request
+     means as an address, net.ParseIP reads the same address (up to v4-mapping) once the zone
+     is cut - one direction only; strings like "1.2.3.4%eth0", which the code reads and netip
+     rejects, are allowed.  True of net/netip: tested on every case by the correspondence check. *)
   Theorem http_gate_spec_on_domain addr_of r remote host xff :
-    (forall s, In s (request_strings host xff) -> addr_of s = parse_ip (strip_zone s)) ->
+    (forall s a, In s (request_strings host xff) -> addr_of s = Some a ->
+                 exists ip, parse_ip (strip_zone s) = Some ip /\ canon ip = canon a) ->
     parse_ip [] = None ->
     split_host remote = Some host ->
     access_denied_http parse_ip split_host r remote xff = false ->
     http_admitted_spec addr_of r host xff.
   Proof.
-    intros Hag Hnil Hs H s a Hin Ha. rewrite (Hag s Hin) in Ha.
+    intros Hag Hnil Hs H s a Hin Ha. destruct (Hag s a Hin Ha) as (ip & Hp & Hc).
+    rewrite <- (deny_by_ip_canon r ip a Hc).
     destruct Hin as [<-|Hin]; [eapply peer_checked; eauto|].
     apply in_flat_map in Hin as (v & Hv & Hin). apply in_map_iff in Hin as (x & <- & Hx).
     eapply xff_all_checked; eauto.
+  Qed.
+
+  (* ---- completeness of the walk: an address of the request that the rules reject makes
+          AccessDeniedHTTP answer true (with the two theorems above: an exact characterisation) ---- *)
+  Lemma xff_walk_true pip r host elems x ip :
+    In x elems -> trim_space x <> host -> pip (trim_space x) = Some ip ->
+    deny_by_ip r (Some ip) = true -> xff_walk pip r host elems = true.
+  Proof.
+    intros Hin Hne Hp Hd. induction elems as [|e rest IH]; [contradiction|]. cbn [xff_walk].
+    destruct (beq (trim_space e) host) eqn:Eh.
+    - destruct Hin as [->|Hin]; [apply beq_eq in Eh; contradiction | auto].
+    - destruct (pip (trim_space e)) as [ipe|] eqn:Ep.
+      + destruct (deny_by_ip r (Some ipe)) eqn:Ed; [reflexivity|].
+        destruct Hin as [->|Hin]; [congruence | auto].
+      + destruct Hin as [->|Hin]; [congruence | auto].
+  Qed.
+
+  Theorem rejected_address_denies r remote host xff s ip :
+    split_host remote = Some host -> parse_ip [] = None ->
+    In s (request_strings host xff) -> parse_ip (strip_zone s) = Some ip ->
+    deny_by_ip r (Some ip) = true ->
+    access_denied_http parse_ip split_host r remote xff = true.
+  Proof.
+    intros Hs Hnil Hin Hp Hd. unfold access_denied_http. rewrite Hs.
+    destruct (rules_empty r) eqn:He; [rewrite (deny_by_ip_empty _ _ He) in Hd; discriminate|].
+    destruct (deny_by_ip r (parse_ip_zone host)) eqn:Eh; [reflexivity|].
+    destruct Hin as [<-|Hin]; [unfold Access.parse_ip_zone in Eh; rewrite Hp in Eh; congruence|].
+    apply in_flat_map in Hin as (v & Hv & Hin). apply in_map_iff in Hin as (x & <- & Hx).
+    pose proof (in_split_join xff v x Hv Hx) as Hj. cbn zeta.
+    destruct (join xff [44]) as [|c j] eqn:Ej.
+    - cbn in Hj. destruct Hj as [<-|[]]. cbn in Hp. congruence.
+    - cbn [is_nil]. eapply (xff_walk_true parse_ip_zone); eauto.
+      intros E. rewrite E in Hp. unfold Access.parse_ip_zone in Eh. rewrite Hp in Eh. congruence.
   Qed.
 End Http.
 
@@ -964,4 +1027,181 @@ Example redirect_gate_nonvacuous :
              (fun _ => None) (bs "1.1.1.1:1") [] tt = [ERespond 403] /\
   serve_http ex_parse_ip ex_split_host unit (Some {| t_rules := ex_deny_6666; t_auth := bs "nosuch"; t_redirect := 302 |})
              (fun _ => None) (bs "1.1.1.1:1") [] tt = [ERespond 401].
+Proof. repeat split; vm_compute; reflexivity. Qed.
+
+(* ================= the property's statement, composed =================
+   For every rule text (well-formed or not), every RemoteAddr and X-Forwarded-For header set,
+   every scheme name, scheme table and credentials, on a forwarding or a redirect route:
+   the reading of the rule text is the independent [intended_admits] (blocks of the parsable
+   items, CIDR membership = [contains], proved equal to the bit-level spec), the route's rule
+   map is what ProcessAccessRules leaves in the target. *)
+Section Property.
+  Variable parse_ip : str -> option ipaddr.
+  Variable parse_cidr : str -> option ipnet.
+  Variable split_host : str -> option str.
+  Variable creds : Type.
+
+  Definition route_target (allow_opt deny_opt auth : str) (redirect : N) : target :=
+    {| t_rules := target_rules parse_ip parse_cidr allow_opt deny_opt; t_auth := auth; t_redirect := redirect |}.
+
+  (* every address the request carries is admitted by the intended reading of the rule text *)
+  Definition request_admitted (allow_opt deny_opt host : str) (xff : list str) : Prop :=
+    forall s ip, In s (request_strings host xff) -> parse_ip (strip_zone s) = Some ip ->
+                 intended_admits parse_ip parse_cidr allow_opt deny_opt ip = true.
+
+  (* forwarded (or answered with the route's redirect) => admitted and authorised *)
+  Theorem http_forwarded_only_if allow_opt deny_opt auth redirect (schemes : scheme_table creds) remote host xff c :
+    split_host remote = Some host -> parse_ip [] = None ->
+    (In EUpstream (serve_http parse_ip split_host creds (Some (route_target allow_opt deny_opt auth redirect)) schemes remote xff c)
+     \/ exists code, In (ERedirect code) (serve_http parse_ip split_host creds (Some (route_target allow_opt deny_opt auth redirect)) schemes remote xff c)) ->
+    request_admitted allow_opt deny_opt host xff /\ authorized auth schemes c = true.
+  Proof.
+    intros Hs Hnil H.
+    assert (G : access_denied_http parse_ip split_host (target_rules parse_ip parse_cidr allow_opt deny_opt) remote xff = false
+                /\ authorized auth schemes c = true).
+    { destruct H as [H|[code H]].
+      - apply gate_before_upstream_http in H as (tg & E & Hd & Ha & _). inversion E; subst tg. now split.
+      - apply gate_before_redirect_http in H as (tg & E & _ & _ & Hd & Ha). inversion E; subst tg. now split. }
+    destruct G as [Hd Ha]. split; [|exact Ha].
+    intros s ip Hin Hp. apply fail_closed.
+    destruct Hin as [<-|Hin]; [eapply peer_checked; eauto|].
+    apply in_flat_map in Hin as (v & Hv & Hin). apply in_map_iff in Hin as (x & <- & Hx).
+    eapply xff_all_checked; eauto.
+  Qed.
+
+  (* an address of the request (peer or any X-Forwarded-For element) that the intended rules
+     reject => 403 and nothing else: no upstream, no redirect, whatever the credentials *)
+  Theorem http_rejected_gets_403 allow_opt deny_opt auth redirect (schemes : scheme_table creds) remote host xff c s ip :
+    split_host remote = Some host -> parse_ip [] = None ->
+    In s (request_strings host xff) -> parse_ip (strip_zone s) = Some ip ->
+    intended_admits parse_ip parse_cidr allow_opt deny_opt ip = false ->
+    serve_http parse_ip split_host creds (Some (route_target allow_opt deny_opt auth redirect)) schemes remote xff c
+    = [ERespond 403].
+  Proof.
+    intros Hs Hnil Hin Hp Hi. apply denied_gets_403. cbn [route_target t_rules].
+    eapply rejected_address_denies; eauto.
+    destruct (deny_by_ip (target_rules parse_ip parse_cidr allow_opt deny_opt) (Some ip)) eqn:E; [reflexivity|].
+    apply fail_closed in E. congruence.
+  Qed.
+
+  (* every address admitted by the rules in force but the scheme does not accept => 401 and nothing else *)
+  Theorem http_unauthorised_gets_401 allow_opt deny_opt auth redirect (schemes : scheme_table creds) remote xff c :
+    access_denied_http parse_ip split_host (target_rules parse_ip parse_cidr allow_opt deny_opt) remote xff = false ->
+    authorized auth schemes c = false ->
+    serve_http parse_ip split_host creds (Some (route_target allow_opt deny_opt auth redirect)) schemes remote xff c
+    = [ERespond 401].
+  Proof. intros Hd Ha. now apply unauthorized_gets_401. Qed.
+
+  (* on a well-formed rule text "admitted by the rules in force" is "admitted by the intended reading" *)
+  Theorem http_admitted_not_denied allow_opt deny_opt remote host xff :
+    rule_well_formed parse_ip parse_cidr allow_opt deny_opt = true ->
+    split_host remote = Some host -> parse_ip [] = None ->
+    request_admitted allow_opt deny_opt host xff ->
+    access_denied_http parse_ip split_host (target_rules parse_ip parse_cidr allow_opt deny_opt) remote xff = false.
+  Proof.
+    intros W Hs Hnil Hadm.
+    destruct (access_denied_http parse_ip split_host (target_rules parse_ip parse_cidr allow_opt deny_opt) remote xff) eqn:E;
+      [|reflexivity].
+    exfalso. unfold access_denied_http in E. rewrite Hs in E.
+    destruct (rules_empty (target_rules parse_ip parse_cidr allow_opt deny_opt)); [discriminate|].
+    assert (X : forall s ip, In s (request_strings host xff) -> parse_ip (strip_zone s) = Some ip ->
+                deny_by_ip (target_rules parse_ip parse_cidr allow_opt deny_opt) (Some ip) = false).
+    { intros s ip Hin Hp. rewrite (fail_closed_on_domain _ _ _ _ _ W). now rewrite (Hadm s ip Hin Hp). }
+    destruct (deny_by_ip (target_rules parse_ip parse_cidr allow_opt deny_opt) (parse_ip_zone parse_ip host)) eqn:Eh.
+    - unfold parse_ip_zone in Eh. destruct (parse_ip (strip_zone host)) as [ip|] eqn:Ep; [|discriminate].
+      rewrite (X host ip (or_introl eq_refl) Ep) in Eh. discriminate.
+    - cbn zeta in E. destruct (join xff [44]) as [|ch j] eqn:Ej; [discriminate|]. cbn [is_nil] in E.
+      (* a denying element of the walk is an address of the request *)
+      assert (W2 : forall elems, (forall x, In x elems -> In (trim_space x) (request_strings host xff)) ->
+                   xff_walk (parse_ip_zone parse_ip) (target_rules parse_ip parse_cidr allow_opt deny_opt) host elems = false).
+      { induction elems as [|e rest IH]; intros Hall; [reflexivity|]. cbn [xff_walk].
+        destruct (beq (trim_space e) host); [apply IH; intros x Hx; apply Hall; now right|].
+        destruct (parse_ip_zone parse_ip (trim_space e)) as [ipe|] eqn:Ep; [|apply IH; intros x Hx; apply Hall; now right].
+        unfold parse_ip_zone in Ep. rewrite (X _ ipe (Hall e (or_introl eq_refl)) Ep).
+        apply IH; intros x Hx; apply Hall; now right. }
+      rewrite W2 in E; [discriminate|]. intros x Hx. right.
+      destruct xff as [|v0 rest0]; [discriminate|].
+      assert (Hne : v0 :: rest0 <> []) by discriminate.
+      destruct (in_split_join_inv (v0 :: rest0) x Hne) as (v & Hv & Hxv); [now rewrite Ej|].
+      apply in_flat_map. exists v. split; [exact Hv|]. apply in_map. exact Hxv.
+  Qed.
+
+  (* ---- TCP ---- *)
+  Theorem denied_tcp_closes t p :
+    access_denied_tcp (t_rules t) p = true -> serve_tcp (Some t) p = [EClose].
+  Proof. intros H. unfold serve_tcp. now rewrite H. Qed.
+
+  Theorem tcp_dialled_only_if allow_opt deny_opt ip :
+    In EUpstream (serve_tcp (Some (route_target allow_opt deny_opt [] 0)) (TCPAddr (Some ip))) ->
+    intended_admits parse_ip parse_cidr allow_opt deny_opt ip = true.
+  Proof.
+    intros H. apply gate_before_upstream_tcp in H as (tg & E & Hd). inversion E; subst tg.
+    cbn [route_target t_rules] in Hd. rewrite tcp_peer_checked in Hd. now apply fail_closed.
+  Qed.
+
+  Theorem tcp_rejected_closes allow_opt deny_opt ip :
+    intended_admits parse_ip parse_cidr allow_opt deny_opt ip = false ->
+    serve_tcp (Some (route_target allow_opt deny_opt [] 0)) (TCPAddr (Some ip)) = [EClose].
+  Proof.
+    intros Hi. apply denied_tcp_closes. cbn [route_target t_rules]. rewrite tcp_peer_checked.
+    destruct (deny_by_ip (target_rules parse_ip parse_cidr allow_opt deny_opt) (Some ip)) eqn:E; [reflexivity|].
+    apply fail_closed in E. congruence.
+  Qed.
+
+  (* the rule map ProcessAccessRules leaves never holds both keys: the deny-list theorems'
+     hypothesis [r_allow r = None] is met by every route with a deny key *)
+  Theorem reachable_rules_one_key allow_opt deny_opt :
+    r_allow (target_rules parse_ip parse_cidr allow_opt deny_opt) = None \/
+    r_deny (target_rules parse_ip parse_cidr allow_opt deny_opt) = None.
+  Proof.
+    unfold target_rules. rewrite process_access_rules_spec.
+    destruct (rule_well_formed parse_ip parse_cidr allow_opt deny_opt) eqn:W; cbn [fst r_allow r_deny deny_all_rules]; [|now right].
+    unfold rule_well_formed in W. apply andb_true_iff in W as [W _]. apply andb_true_iff in W as [W _].
+    destruct (is_nil allow_opt); [now left|]. destruct (is_nil deny_opt); [now right|]. discriminate.
+  Qed.
+
+  (* ---- gRPC: F-C12-4 (open).  The gRPC path applies no gate: a rejected peer's call reaches
+          the upstream.  Outside the region (no access and no auth option on the route) the
+          property holds trivially. ---- *)
+  Theorem grpc_not_gated_refuted :
+    exists (t : target) (ip : ipaddr),
+      deny_by_ip (t_rules t) (Some ip) = true /\ In EUpstream (serve_grpc (Some t)).
+  Proof.
+    exists {| t_rules := deny_all_rules; t_auth := []; t_redirect := 0 |}, (IP4 134744072).
+    split; [reflexivity | now left].
+  Qed.
+
+  Theorem grpc_unauthorised_refuted :
+    exists (t : target) (schemes : scheme_table unit),
+      authorized (t_auth t) schemes tt = false /\ In EUpstream (serve_grpc (Some t)).
+  Proof.
+    exists {| t_rules := no_rules; t_auth := [110]; t_redirect := 0 |}, (fun _ => None).
+    split; [reflexivity | now left].
+  Qed.
+
+  Theorem grpc_gate_on_domain t (schemes : scheme_table creds) c ip :
+    rules_empty (t_rules t) = true -> t_auth t = [] ->
+    In EUpstream (serve_grpc (Some t)) ->
+    deny_by_ip (t_rules t) ip = false /\ authorized (t_auth t) schemes c = true.
+  Proof. intros He Ha _. split; [now apply deny_by_ip_empty | now rewrite Ha]. Qed.
+End Property.
+
+(* examples for each branch of the composed statement *)
+Example property_nonvacuous :
+  (* admitted, no scheme: forwarded *)
+  serve_http ex_parse_ip ex_split_host unit (Some (route_target ex_parse_ip ex_parse_cidr [] (bs "ip:6.6.6.6") [] 0))
+             (fun _ => None) (bs "1.1.1.1:1") [bs "8.8.8.8"; bs "1.1.1.1"] tt = [EUpstream] /\
+  (* an X-Forwarded-For element in a second header line is rejected: 403 *)
+  serve_http ex_parse_ip ex_split_host unit (Some (route_target ex_parse_ip ex_parse_cidr [] (bs "ip:6.6.6.6") [] 0))
+             (fun _ => None) (bs "1.1.1.1:1") [bs "8.8.8.8"; bs "6.6.6.6"] tt = [ERespond 403] /\
+  intended_admits ex_parse_ip ex_parse_cidr [] (bs "ip:6.6.6.6") (IP16 (mapped 101058054)) = false /\
+  (* admitted, unknown scheme: 401 *)
+  serve_http ex_parse_ip ex_split_host unit (Some (route_target ex_parse_ip ex_parse_cidr [] (bs "ip:6.6.6.6") (bs "nosuch") 0))
+             (fun _ => None) (bs "1.1.1.1:1") [] tt = [ERespond 401] /\
+  (* unusable rule: 403 for everybody *)
+  serve_http ex_parse_ip ex_split_host unit (Some (route_target ex_parse_ip ex_parse_cidr (bs "ip:10.0.0.0/33") [] [] 0))
+             (fun _ => None) (bs "1.1.1.1:1") [] tt = [ERespond 403] /\
+  (* TCP *)
+  serve_tcp (Some (route_target ex_parse_ip ex_parse_cidr (bs "ip:10.0.0.0/8") [] [] 0)) (TCPAddr (Some ip_8888)) = [EClose] /\
+  serve_tcp (Some (route_target ex_parse_ip ex_parse_cidr (bs "ip:10.0.0.0/8") [] [] 0)) (TCPAddr (Some (IP4 168430090))) = [EUpstream].
 Proof. repeat split; vm_compute; reflexivity. Qed.
